@@ -484,14 +484,14 @@ use crate::vspec_line::*;''')
     # ---- LineInstruction::parse
     li = ln.item(r'^impl<R, Offset> LineInstruction<R, Offset>', label='LineInstruction')
     li.custom('R-CLONE', 'header.standard_opcode_lengths().clone()', 'reader_clone(header.standard_opcode_lengths())')
-    li.custom('R-CLONE', 'let mut args = input.clone();', 'let mut args = reader_clone(input);')
+    li.custom('R-CLONE', 'let mut args = input.clone();', 'let mut args = reader_clone(input);', optional=True)
     # same as R-CLOSURE: the wildcard loop variable gets a name so that the loop invariant can count iterations
-    li.custom('R-CLOSURE', 'for _ in 0..num_args {', 'for _verif_i in 0..num_args {')
+    li.custom('R-CLOSURE', 'for _ in 0..num_args {', 'for _verif_i in 0..num_args {', optional=True)
     li.clean(offset=False)
     li.own(['C01', 'C04'])
     li.splice('parse', ret='res', requires=[VALID], canary=True, ensures=parse_clauses(), loops={
         0: 'invariant adv(args.rv(), input.rv(), lebs_len(args.rv(), 0, _verif_i as nat)), args.rv() == sub_view(old(input).rv(), 1, (old(input).rv().len - 1) as nat), old(input).rv().len >= 1, 12 < old(input).rv().at(0) < header.lh().opcode_base,'},
-        before=[('let len = input.offset_from(&args);', 'proof { lemma_lebs_shift(old(input).rv(), num_args as nat); }')])
+        before=[(Opt('let len = input.offset_from(&args);'), 'proof { lemma_lebs_shift(old(input).rv(), num_args as nat); }')])
     sk.add(M, li)
 
     # ---- LineInstructions (iterator protocol, DESIGN 5.2)
